@@ -370,7 +370,7 @@ pub fn run_resolver() {
     }
 }
 
-// call-eval: `call <np> {<P|poison> <name ok 0|1>}*np <na> {<d|o> <A|none|poison>}*na`
+// call-eval: `call|callx <np> {<P|poison> <name ok 0|1>}*np <na> {<d|o> <A|none|poison>}*na`
 //   a call of a function with np parameters by na arguments (d: a plain Deref expression, o: the same in parentheses),
 //   through the public Analyzer::declare / Analyzer::analyze; answers the first of the four call errors or `ok`
 pub fn run_call() {
@@ -415,7 +415,12 @@ pub fn run_call() {
             };
             let caller = Declaration::Function {
                 name: cid(51), parameters: Vec::new(),
-                body: Ok(FunctionBody { statements: vec![Statement::MethodCall { name: cid(50), builtin: None, arguments }], return_value: None, return_value_identifier: cid(52) }),
+                body: Ok(if w[0] == "callx" {
+                    // the call as an expression: the function's return value
+                    FunctionBody { statements: Vec::new(), return_value: Some(Expression::FunctionCall { name: cid(50), builtin: None, arguments, return_type: None }), return_value_identifier: cid(52) }
+                } else {
+                    FunctionBody { statements: vec![Statement::MethodCall { name: cid(50), builtin: None, arguments }], return_value: None, return_value_identifier: cid(52) }
+                }),
                 return_type: Ok(ValueType::Void), flags: Default::default(), location_of_declaration: loc(), location_of_return_type: loc(),
             };
             let mut analyzer = penne::alpha::analyzer::Analyzer::default();
